@@ -83,12 +83,14 @@ PathIdx(i)  == IF i <= 1 THEN {} ELSE {i} \cup PathIdx(PrevIdx(i))
 (* a certificate it holds.  [tag, c]: tag names the change (used to build *)
 (* the fresh id when the hash is recomputed).                              *)
 AllTamperFields == {"prev", "epoch", "avk", "params", "msgEpoch", "nextAvk", "nextParams",
-                    "signedMsg", "sig", "kind", "genSig"}
-B(b) == IF b THEN "T" ELSE "F"
+                    "signedMsg", "sig", "resign", "kind", "genSig"}
 
-(* a protocol-message part changes: either the signed message is left alone (it no longer    *)
-(* matches, the signature still covers it) or it is recomputed (nobody signed the new one)   *)
-MsgAlt(c, s) == [c EXCEPT !.signedMsgOk = s, !.sigBy = IF s THEN "none" ELSE @]
+(* a protocol-message part changes, and                                                       *)
+(*   "k"  the signed message is kept (it no longer matches, the signature still covers it)    *)
+(*   "d"  the signed message is recomputed (nobody signed the new one)                        *)
+(*   "r"  recomputed and re-signed by the same key set (collusion / the provider's own set)   *)
+MsgModes == {"k", "d", "r"}
+MsgAlt(c, s) == [c EXCEPT !.signedMsgOk = (s # "k"), !.sigBy = IF s = "d" THEN "none" ELSE @]
 
 Alter1(c) ==
     (IF "prev" \in TamperFields THEN
@@ -101,18 +103,20 @@ Alter1(c) ==
     \cup (IF "params" \in TamperFields THEN
         {[tag |-> "params=" \o v, c |-> [c EXCEPT !.params = v]] : v \in Pars \ {c.params}} ELSE {})
     \cup (IF "msgEpoch" \in TamperFields THEN
-        {[tag |-> "msgEpoch=" \o ToString(v) \o B(s), c |-> MsgAlt([c EXCEPT !.msgEpoch = v], s)] :
-            v \in (0..(MaxEpoch + 1)) \ {c.msgEpoch}, s \in BOOLEAN} ELSE {})
+        {[tag |-> "msgEpoch=" \o ToString(v) \o s, c |-> MsgAlt([c EXCEPT !.msgEpoch = v], s)] :
+            v \in (0..(MaxEpoch + 1)) \ {c.msgEpoch}, s \in MsgModes} ELSE {})
     \cup (IF "nextAvk" \in TamperFields THEN
-        {[tag |-> "nextAvk=" \o v \o B(s), c |-> MsgAlt([c EXCEPT !.nextAvk = v], s)] :
-            v \in (Keys \cup {"none"}) \ {c.nextAvk}, s \in BOOLEAN} ELSE {})
+        {[tag |-> "nextAvk=" \o v \o s, c |-> MsgAlt([c EXCEPT !.nextAvk = v], s)] :
+            v \in (Keys \cup {"none"}) \ {c.nextAvk}, s \in MsgModes} ELSE {})
     \cup (IF "nextParams" \in TamperFields THEN
-        {[tag |-> "nextParams=" \o v \o B(s), c |-> MsgAlt([c EXCEPT !.nextParams = v], s)] :
-            v \in (Pars \cup {"none"}) \ {c.nextParams}, s \in BOOLEAN} ELSE {})
+        {[tag |-> "nextParams=" \o v \o s, c |-> MsgAlt([c EXCEPT !.nextParams = v], s)] :
+            v \in (Pars \cup {"none"}) \ {c.nextParams}, s \in MsgModes} ELSE {})
     \cup (IF "signedMsg" \in TamperFields /\ c.signedMsgOk THEN
         {[tag |-> "signedMsg", c |-> [c EXCEPT !.signedMsgOk = FALSE, !.sigBy = "none"]]} ELSE {})
     \cup (IF "sig" \in TamperFields /\ c.kind = "std" THEN
         {[tag |-> "sig=" \o v, c |-> [c EXCEPT !.sigBy = v]] : v \in (Keys \cup {"none"}) \ {c.sigBy}} ELSE {})
+    \cup (IF "resign" \in TamperFields /\ c.kind = "std" THEN     \* re-signed by another key set
+        {[tag |-> "resign=" \o v, c |-> [c EXCEPT !.avk = v, !.sigBy = v]] : v \in Keys \ {c.avk}} ELSE {})
     \cup (IF "kind" \in TamperFields THEN
         \* the other signature variant: a multi-signature nobody made / somebody else's genesis signature
         {[tag |-> "kind", c |-> [c EXCEPT !.kind = IF @ = "genesis" THEN "std" ELSE "genesis",
